@@ -36,6 +36,9 @@ def bounds(tier):
     return params(tier)
 
 
+RULE += ' Round 9: every program has locals with hostile == (equal to everything / no truth value).'
+
+
 def legs(tier):
     from vlib.runner import Leg
     n = 4 if tier == "quick" else 12
